@@ -26,6 +26,8 @@ for sid in sorted(os.listdir(os.path.join(ROOT, "seeded"))):
             caught.append(p + (" (input)" if c.get("concrete_input") else " (corr.)"))
         elif c.get("exit") == 0:
             missed.append(p)
+    if m.get("retired"):
+        what = "RETIRED (no longer a violation): " + m["retired"][:260]
     rows.append("| %s | %s | %s | %s | %s |" % (sid, m.get("breaks_property"), what.replace("|", "/"), ", ".join(caught) or "-", ", ".join(missed) or "-"))
 tbl = "| seeded change | property | what it does | caught by (input = concrete failing input, corr. = correspondence only) | checks run that stayed green |\n|---|---|---|---|---|\n" + "\n".join(rows)
 p = os.path.join(ROOT, "DESIGN.md")
